@@ -28,6 +28,7 @@ inductive Op
   | seekSnap (sub snap : String)
   | snapshot (name sub : String) (labels : StrMap) (newId : Id)
   | deleteSnap (name : String)
+  | setDelay (sub : String) (d : Int)
   | expireSubs (max : Nat) (victims : List Id)
   | pruneCompletedDeliveries (minAge : Int) (max : Nat) (victims : List Id)
   | pruneExpiredDeliveries (max : Nat) (victims : List Id)
@@ -78,6 +79,7 @@ def step (st : St) : Op → St × Out
   | .seekSnap s n => finish st (seekSnap st.db st.now s n) fun (a, b) => s!"ok:{a},{b}"
   | .snapshot n s l i => finish st (createSnapshot st.db st.now n s l i) fun _ => "ok"
   | .deleteSnap n => finish st (deleteSnapshot st.db n) fun _ => "ok"
+  | .setDelay n d => finish st (setDelay st.db n d) fun _ => "ok"
   | .expireSubs mx v => finish st (expireSubs st.db st.now mx v) fun k => s!"ok:{k}"
   | .pruneCompletedDeliveries a mx v => finish st (pruneCompletedDeliveries st.db st.now a mx v) fun k => s!"ok:{k}"
   | .pruneExpiredDeliveries mx v => finish st (pruneExpiredDeliveries st.db st.now mx v) fun k => s!"ok:{k}"
